@@ -36,6 +36,10 @@ ATTRS = [["name"], ["pid", "ppid", "status"], ["cpu_times", "name", "num_threads
 _env = {}
 
 
+# kernel workers: the Name: line of their status file carries the work-queue description, up to 63 bytes - the lines in front
+# of Tgid: are then far longer than for any ordinary process (every length from 40 to 63)
+KWORKER_NAMES = [("kworker/u64:%d-" % (n % 10) + "events_freezable_power_efficient_unbound_long_wq")[:n] for n in range(40, 64)]
+
 def setup():
     if not _env:
         from vlib import histories, psu, sched
@@ -61,7 +65,7 @@ def gen_history(rng):
                 z = rng.random() < 0.2
                 if rng.random() < 0.15:
                     # names that look like fields of /proc/<pid>/status (the kernel does not escape tabs in Name:)
-                    hist.append(["spawn", p, z, None, rng.choice(["Tgid:\t1", "Tgid:\t%d" % (p + 1), "Pid:\t1", "Tgid:\t99999"])])
+                    hist.append(["spawn", p, z, None, rng.choice(["Tgid:\t1", "Tgid:\t%d" % (p + 1), "Pid:\t1", "Tgid:\t99999"] + KWORKER_NAMES)])
                 else:
                     hist.append(["spawn", p, z])
                 if rng.random() < 0.2:
